@@ -22,6 +22,7 @@ import (
 // same slot. The stale element is never removed by Run's "chain moved forward" cleanup (it compares the element at
 // the slot of i+1 with i), and Put counts the overwrite as a new element, so len grows by one per lap.
 func TestReproQueueLenLeak(t *testing.T) {
+	reproGate(t)
 	const cache = 4
 	led := &ledger{consWait: -1, top: 1 << 30}
 	led.cond = nil
@@ -66,6 +67,7 @@ func TestReproQueueLenLeak(t *testing.T) {
 // defineSyncStage ("failed to get MPT node from the pool") as soon as the already stored part of the trie contains
 // a node that is reachable twice below an already visited parent, e.g. two sibling leaves holding the same value.
 func TestReproStateSyncReinitSharedSiblings(t *testing.T) {
+	reproGate(t)
 	c := SCase{
 		Chain:  ck.ChainCfg{Profile: "V1C1", SRIH: true, StateExchange: true, StateSyncInterval: 4, MTB: 4},
 		Node:   ck.NodeCfg{Backend: "mem", RemoveUntraceable: true, KeepOnlyLatest: true, GCPeriod: 1},
@@ -139,6 +141,13 @@ func TestReproStateSyncReinitSharedSiblings(t *testing.T) {
 	t.Log("MPT stage completed without a panic")
 }
 
+// The reproductions below are run explicitly: C20_REPRO=1 <binary> -test.run TestRepro -test.v
+func reproGate(t *testing.T) {
+	if os.Getenv("C20_REPRO") == "" {
+		t.Skip("set C20_REPRO=1 to run the standalone reproductions")
+	}
+}
+
 var reproN = func() int {
 	if os.Getenv("C20_REPRO_N") != "" {
 		n, _ := strconv.Atoi(os.Getenv("C20_REPRO_N"))
@@ -207,6 +216,7 @@ func reproSync(t *testing.T) (*driver, int, int) {
 // TrustedHeader) cannot be restarted: the jump deletes the genesis block together with its header, and
 // HeaderHashes.init walks the header chain back to the genesis.
 func TestReproRestartAfterStateSync(t *testing.T) {
+	reproGate(t)
 	d, _, _ := reproSync(t)
 	if err := d.n.restart(); err != nil {
 		t.Fatalf("restart of the node right after the completed state sync (height %d) fails: %v", d.src.P, err)
@@ -217,6 +227,7 @@ func TestReproRestartAfterStateSync(t *testing.T) {
 // before the first commit of the state jump. On restart Module.Init finds headers, MPT and blocks complete and
 // declares the module inactive WITHOUT performing the jump: the node sits at height 0 with the genesis MPT removed.
 func TestReproCrashBeforeJump(t *testing.T) {
+	reproGate(t)
 	d, cBefore, cAfter := reproSync(t)
 	t.Logf("the final AddBlock issued commits %d..%d", cBefore+1, cAfter)
 	tw, err := d.n.crashCopy(cBefore + 1)
@@ -225,9 +236,16 @@ func TestReproCrashBeforeJump(t *testing.T) {
 	}
 	defer tw.close()
 	m := tw.bc.GetStateSyncModule()
-	if err := m.Init(9); err != nil {
-		t.Fatalf("Init: %v", err)
-	}
+	func() {
+		defer func() {
+			if r := recover(); r != nil {
+				t.Fatalf("Init panics on the restarted node (this is the shared-node re-Init defect, see TestReproStateSyncReinitSharedSiblings): %v", r)
+			}
+		}()
+		if err := m.Init(9); err != nil {
+			t.Fatalf("Init: %v", err)
+		}
+	}()
 	if !m.IsActive() && tw.bc.BlockHeight() != d.src.P {
 		t.Fatalf("after the restart: module inactive (IsActive=false, NeedBlocks=%v), block height %d, header height %d, sync point %d; AddBlock(1) through ordinary processing: %v",
 			m.NeedBlocks(), tw.bc.BlockHeight(), tw.bc.HeaderHeight(), d.src.P, tw.bc.AddBlock(d.src.blk(1)))
